@@ -92,7 +92,7 @@ TOKENS = {
     "c0-control": [chr(c) for c in range(0x20)],
     "crlf": ["\r\n", "a\r\nb", "\r", "\n\r", "\r\v", "x\r\n\r\ny"],
     "del-c1": [chr(c) for c in range(0x7F, 0xA0)],
-    "specials": ["\ufffd", "\ufffc", "\ufeff", "\u200b", "\u2028", "\u2029", "\ufdd0", "\ud7ff", "\ue000", "\u00a0", "\u3000"],
+    "specials": ["\ufffd", "\ufffc", "\ufeff", "\u200b", "\u2028", "\u2029", "\ufdd0", "\ud7ff", "\ue000", "\u00a0", "\u3000", "e\u0301", "\u2126", "\u212b", "\ufb01", "\u1100\u1161"],  # incl. text that is not in normal form C / KC
     "astral": ["\U0001F600", "\U00010000", "\U0010FFFF", "\U0001FFFE", "\U000E0001", "\U0002A6D6"],
     "xescape-lookalike": ["_x000A_", "_x000B_", "_x0007_", "_x005F_", "_x000a_", "_x", "_xZZZZ_", "_x005F_x000A_", "_x000D_", "_"],
 }
